@@ -332,7 +332,7 @@ def readout_case(ctx, LP, rng):
 
 
 def run(tier, seed):
-    ctx = core.Ctx(PROP, tier, seed, "proof", ["C08"])
+    ctx = core.Ctx(PROP, tier, seed, "proof", ["C08", "C08b"])
     ctx.axioms = core.audit(ctx.modules)
     import pyqsp.LPoly as LP
     nops = 2000 if tier == "quick" else 20000
